@@ -188,6 +188,9 @@ type OpStore struct {
 	// KeepPointers: Put keeps the operation objects it is handed instead of copying them (what a plain in-memory store does,
 	// e.g. the library's own mock); whoever changes such an object later changes the stored history
 	KeepPointers bool
+	// ShareSlice: Get hands out the store's own slice (with spare capacity) instead of a copy - what the library's mock store
+	// and other plain in-memory stores do; a caller that writes into the slice it was given changes the stored history
+	ShareSlice bool
 }
 
 // NewOpStore creates an empty store.
@@ -241,6 +244,14 @@ func (s *OpStore) Get(suffix string) ([]*operation.AnchoredOperation, error) {
 	ops, ok := s.ops[suffix]
 	if !ok || len(ops) == 0 {
 		return nil, errors.New("uniqueSuffix not found in the store")
+	}
+	if s.ShareSlice {
+		if cap(ops) < len(ops)+4 {
+			grown := make([]*operation.AnchoredOperation, len(ops), len(ops)+8)
+			copy(grown, ops)
+			s.ops[suffix], ops = grown, grown
+		}
+		return ops, nil
 	}
 	out := make([]*operation.AnchoredOperation, len(ops))
 	for i, o := range ops {
